@@ -478,12 +478,21 @@ def r15_lower_for(src, body_open_byte=0):
         k += 1
         if t.text != 'for':
             continue
-        # pattern: single identifier
-        if not (st[i + 1].kind == 'id' and st[i + 2].kind == 'id' and st[i + 2].text == 'in'):
+        # pattern: single identifier, or a parenthesised tuple pattern `(a, b)` (bound by reference, as the `for` does)
+        if st[i + 1].kind == 'id' and st[i + 2].kind == 'id' and st[i + 2].text == 'in':
+            x = st[i + 1].text
+            j = i + 3
+        elif st[i + 1].kind == 'p' and st[i + 1].text == '(':
+            pc = match_close(st, i + 1)
+            if not (pc + 1 < len(st) and st[pc + 1].kind == 'id' and st[pc + 1].text == 'in'):
+                continue
+            if any(u.kind == 'p' and u.text in ('&', '(') for u in st[i + 2:pc]) or any(u.text in ('mut', 'ref') for u in st[i + 2:pc]):
+                continue
+            x = src[st[i + 1].start:st[pc].end]
+            j = pc + 2
+        else:
             continue
-        x = st[i + 1].text
         by_value = False
-        j = i + 3
         e0 = j
         while j < len(st) and not (st[j].kind == 'p' and st[j].text == '{'):
             if st[j].kind == 'p' and st[j].text in ('(', '['):
